@@ -180,7 +180,11 @@ func (q *Queue[T]) pop(i int) T {
 		q.data[i], q.data[n] = q.data[n], out
 		q.move(q.data[i], i) // N.B. we do not report a move of out.
 		q.data = q.data[:n]
-		q.pushDown(i)
+		if i < n && q.pushDown(i) == i {
+			// The element moved into slot i did not sink; it may instead be
+			// out of order with respect to its ancestors.
+			q.pushUp(i)
+		}
 	}
 	return out
 }
